@@ -18,6 +18,7 @@ def table(d):
     ver0 = d.inputs[("v", sorted(inst.ver)[0])]
     cid0 = inst.cid[c0]
     sha = inst.digest(c0, "sha256")
+    wrong = "0" * 64
     size = len(inst.content[c0])
     om = d.object_metadata(c0)
     P = SCRATCH_PID
@@ -95,6 +96,23 @@ def table(d):
         "delmeta_pid_none": lambda: s.delete_metadata(None),
         "delmeta_pid_empty": lambda: s.delete_metadata(""),
         "delmeta_fmt_space": lambda: s.delete_metadata(P, "  "),
+        "store_sum_empty_no_algo": lambda: s.store_object(P, path_a, None, "", None),
+        "store_sum_empty_algo_empty": lambda: s.store_object(P, path_a, None, "", ""),
+        "store_algo_empty_no_sum": lambda: s.store_object(P, path_a, None, None, ""),
+        "store_sum_space": lambda: s.store_object(P, path_a, None, " ", "sha256"),
+        "dii_algo_empty": lambda: s.delete_if_invalid_object(om, sha, "", size),
+        "dii_size_negative": lambda: s.delete_if_invalid_object(om, sha, "sha256", -5),
+        "putmeta_fmt_nl": lambda: s.store_metadata(P, ver0, "\n"),
+        "store_sumalgo_unsupported_size_wrong":
+            lambda: s.store_object(P, path_a, None, sha, "sm3", size + 1),
+        "store_algo_unsupported_sum_wrong":
+            lambda: s.store_object(P, path_a, "crc32", wrong, "sha256"),
+        "dii_algo_unsupported_size_wrong":
+            lambda: s.delete_if_invalid_object(om, sha, "crc32", size + 1),
+        "dii_algo_unsupported_sum_wrong":
+            lambda: s.delete_if_invalid_object(om, wrong, "crc32", size),
+        "dii_sum_space_size_wrong":
+            lambda: s.delete_if_invalid_object(om, "ab cd", "sha256", size + 1),
     }
 
 
